@@ -237,3 +237,361 @@ Section Vertex.
     unfold hel_extract. cbv zeta. cbn [xnext]. rewrite v_uz2', v_uyr', v_x2'. reflexivity.
   Qed.
 End Vertex.
+
+(* ------------------------------------------------------------------ forward map in local coordinates *)
+Lemma sin_theta_facts c : -1 < c < 1 -> 0 < sqrt (1 - c * c) /\ sqrt (1 - c * c) * sqrt (1 - c * c) + c * c = 1.
+Proof.
+  intros H. assert (0 < 1 - c * c) by nra. split; [apply sqrt_lt_R0; assumption|].
+  rewrite sqrt_sqrt by lra. ring.
+Qed.
+Lemma cos_sin_1 phi : cos phi * cos phi + sin phi * sin phi = 1.
+Proof. pose proof (sin2_cos2 phi) as H. unfold Rsqr in H. lra. Qed.
+
+Lemma fwd_local_loc q c phi :
+  fwd_local q c phi = scale3 q (loc_z c (sqrt (1 - c * c)) (cos phi) (sin phi)).
+Proof. apply vec3_eq; unfold fwd_local, scale3, loc_z; cbn [vx vy vz]; ring. Qed.
+
+Section Forward.
+  Variables (F : mat3) (q c phi : R).
+  Hypothesis HF : rotation F.
+  Hypothesis Hq : 0 < q.
+  Hypothesis Hc : -1 < c < 1.
+  Let s := sqrt (1 - c * c).
+  Let lx := loc_x c s (cos phi) (sin phi).
+  Let ly := loc_y (cos phi) (sin phi).
+  Let lz := loc_z c s (cos phi) (sin phi).
+
+  Lemma fwd_p3_loc : fwd_p3 F q c phi = mat3_vec F (scale3 q lz).
+  Proof. unfold fwd_p3. rewrite fwd_local_loc. reflexivity. Qed.
+  Lemma next_z_loc : next_z (fwd_p3 F q c phi) = mat3_vec F lz.
+  Proof.
+    unfold next_z. rewrite fwd_p3_loc. apply unit_mat3; auto.
+    apply loc_z_unit; [apply sin_theta_facts; assumption|apply cos_sin_1].
+  Qed.
+  Lemma next_y_loc : next_y F phi = mat3_vec F ly.
+  Proof.
+    unfold next_y.
+    replace (add3 (scale3 (sin phi) (neg3 (c1 F))) (scale3 (cos phi) (c2 F))) with (mat3_vec F (scale3 1 ly)).
+    - apply unit_mat3; auto; [lra|]. apply loc_y_unit, cos_sin_1.
+    - apply vec3_eq; unfold mat3_vec, add3, scale3, neg3, ly, loc_y; cbn [vx vy vz]; ring.
+  Qed.
+  Lemma next_frame1_loc : next_frame1 F q c phi = M3 (mat3_vec F lx) (mat3_vec F ly) (mat3_vec F lz).
+  Proof.
+    unfold next_frame1, frame_yz. rewrite next_y_loc, next_z_loc, (cross3_mat3 _ _ _ HF).
+    unfold ly, lz. rewrite (loc_cross_yz c s _ _ (cos_sin_1 phi)). reflexivity.
+  Qed.
+  Lemma next_frame1_rotation : rotation (next_frame1 F q c phi).
+  Proof.
+    rewrite next_frame1_loc. apply rotation_compose; [assumption|].
+    apply loc_rotation; [apply sin_theta_facts; assumption|apply cos_sin_1].
+  Qed.
+  Lemma next_frame2_rotation : rotation (next_frame2 F q c phi).
+  Proof. apply rotation_flip, next_frame1_rotation. Qed.
+End Forward.
+
+(* ------------------------------------------------------------------ boosts from and to the rest frame *)
+Lemma rest_vector_at_rest m p : m <> 0 -> rest_vector (V4 m 0 0 0) p = p.
+Proof.
+  intros Hm. unfold rest_vector.
+  replace (neg3 (boost_vector (V4 m 0 0 0))) with zero3.
+  - apply boost_zero.
+  - apply vec3_eq; unfold neg3, boost_vector, zero3; cbn [vx vy vz pt px py pz]; field; assumption.
+Qed.
+
+Lemma boost_rest_particle m v : norm2_3 v < 1 ->
+  boost (V4 m 0 0 0) v = mk4 (gamma_of (norm2_3 v) * m) (scale3 (gamma_of (norm2_3 v) * m) v).
+Proof.
+  intros _. unfold boost, boost_g. apply vec4_eq; unfold mk4, add3, scale3, dot3, vect; cbn [pt px py pz vx vy vz]; ring.
+Qed.
+
+Lemma boost_vector_of_boosted_rest m v : 0 < m -> norm2_3 v < 1 ->
+  boost_vector (boost (V4 m 0 0 0) v) = v.
+Proof.
+  intros Hm Hv. rewrite boost_rest_particle by assumption.
+  assert (Hg : gamma_of (norm2_3 v) <> 0).
+  { unfold gamma_of. pose proof (norm2_3_nonneg v).
+    assert (0 < sqrt (1 - norm2_3 v)) by (apply sqrt_lt_R0; lra).
+    unfold Rdiv. rewrite Rmult_1_l. apply Rinv_neq_0_compat. lra. }
+  apply vec3_eq; unfold boost_vector, mk4, scale3; cbn [pt px py pz vx vy vz]; field; split; lra.
+Qed.
+
+Lemma rest_of_boosted m v p : 0 < m -> vel_ok v ->
+  rest_vector (boost (V4 m 0 0 0) v) (boost p v) = p.
+Proof.
+  intros Hm Hv. unfold rest_vector. rewrite boost_vector_of_boosted_rest by (try apply Hv; assumption).
+  apply boost_inverse, Hv.
+Qed.
+
+(* a particle of mass m > 0 at rest, boosted with the velocity of P = (sqrt(m^2+|p|^2), p), is P *)
+Lemma boost_from_rest m p3 : 0 < m ->
+  boost (V4 m 0 0 0) (boost_vector (mk4 (sqrt (m * m + norm2_3 p3)) p3)) = mk4 (sqrt (m * m + norm2_3 p3)) p3.
+Proof.
+  intros Hm. pose proof (norm2_3_nonneg p3) as Hn.
+  set (E := sqrt (m * m + norm2_3 p3)).
+  assert (HE : 0 < E) by (apply sqrt_lt_R0; nra).
+  assert (HEE : E * E = m * m + norm2_3 p3) by (apply sqrt_sqrt; nra).
+  assert (Hb : norm2_3 (boost_vector (mk4 E p3)) = norm2_3 p3 / (E * E)).
+  { rewrite boost_vector_norm2 by (cbn; lra). rewrite vect_mk4, pt_mk4. reflexivity. }
+  assert (Hb1 : norm2_3 (boost_vector (mk4 E p3)) < 1).
+  { rewrite Hb. apply Rmult_lt_reg_r with (E * E); [nra|]. unfold Rdiv. rewrite Rmult_assoc, Rinv_l by nra. nra. }
+  rewrite boost_rest_particle by assumption.
+  assert (Hg : gamma_of (norm2_3 (boost_vector (mk4 E p3))) * m = E).
+  { unfold gamma_of. rewrite Hb.
+    replace (1 - norm2_3 p3 / (E * E)) with ((m / E) * (m / E)) by (field_simplify_eq; [nra|lra]).
+    rewrite sqrt_square by (apply Rmult_le_pos; [lra|left; apply Rinv_0_lt_compat; lra]).
+    field. split; lra. }
+  rewrite Hg. apply vec4_eq; unfold mk4, scale3, boost_vector; cbn [pt px py pz vx vy vz]; try reflexivity; field; lra.
+Qed.
+
+(* ------------------------------------------------------------------ backward map: structural lemmas *)
+Lemma mmom_map f t : mmom (mtree_map f t) = f (mmom t).
+Proof. destruct t; reflexivity. Qed.
+
+Lemma bwd_tree_ext t : forall f f' z x, (forall p, f p = f' p) -> bwd_tree f z x t = bwd_tree f' z x t.
+Proof.
+  induction t as [p | P t1 IH1 t2 IH2]; intros f f' z x H; [reflexivity|].
+  cbn [bwd_tree]. rewrite !H.
+  rewrite (IH1 _ (fun p => rest_vector (f' P) (f' p))) by (intros; rewrite !H; reflexivity).
+  rewrite (IH2 _ (fun p => rest_vector (f' P) (f' p))) by (intros; rewrite !H; reflexivity).
+  reflexivity.
+Qed.
+
+Lemma bwd_tree_map t : forall f h z x, bwd_tree f z x (mtree_map h t) = bwd_tree (fun p => f (h p)) z x t.
+Proof.
+  induction t as [p | P t1 IH1 t2 IH2]; intros f h z x; [reflexivity|].
+  cbn [bwd_tree mtree_map]. rewrite !mmom_map, IH1, IH2. reflexivity.
+Qed.
+
+(* one step of the extractor at a node whose accumulated boost brings it to rest *)
+Lemma node_step f z x P T1 T2 : (forall p, rest_vector (f P) (f p) = p) ->
+  bwd_tree f z x (MNode P T1 T2) =
+  (let h1 := hel_extract z x (vect (mmom T1)) in
+   let h2 := hel_extract z x (vect (mmom T2)) in
+   (cosb h1, cosa h1, sina h1) :: bwd_tree (fun p => p) (vect (mmom T1)) (xnext h1) T1
+                                ++ bwd_tree (fun p => p) (vect (mmom T2)) (xnext h2) T2).
+Proof.
+  intros H. cbn [bwd_tree]. cbv zeta. rewrite !H.
+  rewrite (bwd_tree_ext T1 _ (fun p => p)) by exact H.
+  rewrite (bwd_tree_ext T2 _ (fun p => p)) by exact H.
+  reflexivity.
+Qed.
+
+(* the sub-tree of a daughter as stored by the forward map *)
+Definition fsub (P : vec4) (G : mat3) (ti : dtree) : mtree :=
+  match ti with
+  | DLeaf _ => MLeaf P
+  | DNode _ _ _ _ _ => mtree_map (fun p => boost p (boost_vector P)) (fwd_mtree G ti)
+  end.
+
+Lemma fwd_mtree_node F m c phi t1 t2 :
+  fwd_mtree F (DNode m c phi t1 t2) =
+  let q := rel_p m (dmass t1) (dmass t2) in
+  let p3 := fwd_p3 F q c phi in
+  MNode (V4 m 0 0 0) (fsub (fwd_mom (dmass t1) q p3) (next_frame1 F q c phi) t1)
+                     (fsub (fwd_mom (dmass t2) q (neg3 p3)) (next_frame2 F q c phi) t2).
+Proof. reflexivity. Qed.
+
+Lemma fwd_mtree_root F t : mmom (fwd_mtree F t) = V4 (dmass t) 0 0 0.
+Proof. destruct t; reflexivity. Qed.
+
+Lemma tree_ok_mass k t : tree_ok k t -> 0 <= dmass t.
+Proof.
+  revert k. induction t as [m | m c phi t1 IH1 t2 IH2]; intros k H; cbn in *; [assumption|].
+  destruct H as (Hm & _ & _ & _ & _ & _ & O1 & O2). specialize (IH1 _ O1). specialize (IH2 _ O2). lra.
+Qed.
+
+Lemma fsub_spec ti m3 p3 G z x :
+  0 <= dmass ti ->
+  (match ti with DLeaf _ => True | _ => 0 < dmass ti /\ eps < norm2_3 p3 / (dmass ti * dmass ti + norm2_3 p3) end) ->
+  let P := mk4 (sqrt (dmass ti * dmass ti + norm2_3 p3)) p3 in
+  m3 = dmass ti ->
+  mmom (fsub P G ti) = P /\
+  bwd_tree (fun p => p) z x (fsub P G ti) = bwd_tree (fun p => p) z x (fwd_mtree G ti).
+Proof.
+  intros Hm0 Hnode P _. destruct ti as [m | m c phi t1 t2].
+  - split; reflexivity.
+  - destruct Hnode as [Hm Hv]. cbn [dmass] in *.
+    assert (HP : boost (V4 m 0 0 0) (boost_vector P) = P) by (apply boost_from_rest; assumption).
+    assert (Hvel : vel_ok (boost_vector P)).
+    { unfold vel_ok. pose proof (norm2_3_nonneg p3) as Hn.
+      assert (HE : 0 < sqrt (m * m + norm2_3 p3)) by (apply sqrt_lt_R0; nra).
+      unfold P. rewrite boost_vector_norm2 by (cbn; lra). rewrite vect_mk4, pt_mk4, sqrt_sqrt by nra.
+      split; [assumption|].
+      apply Rmult_lt_reg_r with (m * m + norm2_3 p3); [nra|]. unfold Rdiv. rewrite Rmult_assoc, Rinv_l by nra. nra. }
+    split.
+    + unfold fsub. rewrite mmom_map, fwd_mtree_root. exact HP.
+    + unfold fsub. rewrite bwd_tree_map. rewrite fwd_mtree_node. cbv zeta.
+      rewrite node_step by (intros p; apply rest_of_boosted; assumption).
+      rewrite node_step by (intros p; apply rest_vector_at_rest; lra).
+      reflexivity.
+Qed.
+
+(* ------------------------------------------------------------------ round trip for every decay tree *)
+Theorem tree_roundtrip t : forall F k, rotation F -> 0 < k -> tree_ok k t ->
+  bwd_tree (fun p => p) (scale3 k (c3 F)) (c1 F) (fwd_mtree F t) = dtree_angles t.
+Proof.
+  induction t as [m | m c phi t1 IH1 t2 IH2]; intros F k HF Hk Hok; [reflexivity|].
+  cbn [tree_ok] in Hok. destruct Hok as (Hm & Hc & Gk & Gkqs & V1 & V2 & Ok1 & Ok2).
+  pose proof (tree_ok_mass _ _ Ok1) as M1. pose proof (tree_ok_mass _ _ Ok2) as M2.
+  rewrite fwd_mtree_node. cbv zeta.
+  set (q := rel_p m (dmass t1) (dmass t2)) in *.
+  assert (Hq : 0 < q) by (apply rel_p_pos; assumption).
+  destruct (sin_theta_facts c Hc) as [Hs0 Hs].
+  set (s := sqrt (1 - c * c)) in *.
+  pose proof (cos_sin_1 phi) as Hf.
+  assert (Hp3 : fwd_p3 F q c phi = mat3_vec F (scale3 q (loc_z c s (cos phi) (sin phi)))) by (apply fwd_p3_loc).
+  assert (Hn : norm2_3 (fwd_p3 F q c phi) = q * q).
+  { rewrite Hp3, (norm2_3_mat3 _ _ (proj1 HF)), norm2_3_scale. rewrite loc_z_unit by assumption. ring. }
+  assert (Hnn : norm2_3 (neg3 (fwd_p3 F q c phi)) = q * q) by (rewrite norm2_3_neg; exact Hn).
+  (* the two stored sub-trees *)
+  destruct (fsub_spec t1 (dmass t1) (fwd_p3 F q c phi) (next_frame1 F q c phi)
+              (vect (fwd_mom (dmass t1) q (fwd_p3 F q c phi))) (mat3_vec F (loc_x c s (cos phi) (sin phi))) M1) as [Hmom1 Hb1]; [| reflexivity |].
+  { destruct t1; [exact I|]. rewrite Hn. split; [|exact V1]. cbn [tree_ok dmass] in *.
+    destruct Ok1 as (? & _ & _ & _ & _ & _ & O1 & O2). pose proof (tree_ok_mass _ _ O1). pose proof (tree_ok_mass _ _ O2). lra. }
+  destruct (fsub_spec t2 (dmass t2) (neg3 (fwd_p3 F q c phi)) (next_frame2 F q c phi)
+              (vect (fwd_mom (dmass t2) q (neg3 (fwd_p3 F q c phi)))) (mat3_vec F (loc_x c s (cos phi) (sin phi))) M2) as [Hmom2 Hb2]; [| reflexivity |].
+  { destruct t2; [exact I|]. rewrite Hnn. split; [|exact V2]. cbn [tree_ok dmass] in *.
+    destruct Ok2 as (? & _ & _ & _ & _ & _ & O1 & O2). pose proof (tree_ok_mass _ _ O1). pose proof (tree_ok_mass _ _ O2). lra. }
+  rewrite Hn in Hmom1, Hb1. rewrite Hnn in Hmom2, Hb2.
+  fold (fwd_mom (dmass t1) q (fwd_p3 F q c phi)) in Hmom1, Hb1.
+  fold (fwd_mom (dmass t2) q (neg3 (fwd_p3 F q c phi))) in Hmom2, Hb2.
+  rewrite node_step by (intros p; apply rest_vector_at_rest; lra).
+  cbv zeta. rewrite Hmom1, Hmom2.
+  unfold fwd_mom. rewrite !vect_mk4.
+  (* the vertex *)
+  assert (Hz : scale3 k (c3 F) = mat3_vec F (scale3 k ez)).
+  { apply vec3_eq; unfold mat3_vec, add3, scale3, ez; cbn [vx vy vz]; ring. }
+  assert (Hx : c1 F = mat3_vec F ex) by (symmetry; apply mat3_vec_ex).
+  assert (Hp3n : neg3 (fwd_p3 F q c phi) = mat3_vec F (scale3 q (neg3 (loc_z c s (cos phi) (sin phi))))).
+  { rewrite Hp3. apply vec3_eq; unfold mat3_vec, add3, scale3, neg3; cbn [vx vy vz]; ring. }
+  rewrite Hz, Hx, Hp3n, Hp3.
+  rewrite (vertex_extract1 F k q c s (cos phi) (sin phi) HF Hk Hq Hs Hf Gk Gkqs).
+  rewrite (vertex_extract2_x F k q c s (cos phi) (sin phi) HF Hq Hs Hf Gkqs).
+  cbn [cosb cosa sina xnext dtree_angles].
+  (* sub-trees *)
+  unfold fwd_mom in Hb1, Hb2. rewrite !vect_mk4 in Hb1, Hb2. rewrite Hp3 in Hb1. rewrite Hp3n in Hb2.
+  rewrite Hb1, Hb2.
+  pose proof (next_frame1_loc F q c phi HF Hq Hc) as HF1. fold s in HF1.
+  assert (E1 : bwd_tree (fun p => p) (mat3_vec F (scale3 q (loc_z c s (cos phi) (sin phi)))) (mat3_vec F (loc_x c s (cos phi) (sin phi))) (fwd_mtree (next_frame1 F q c phi) t1) = dtree_angles t1).
+  { rewrite <- (IH1 (next_frame1 F q c phi) q (next_frame1_rotation F q c phi HF Hq Hc) Hq Ok1).
+    rewrite HF1. cbn [c1 c3]. rewrite mat3_vec_scale. reflexivity. }
+  assert (E2 : bwd_tree (fun p => p) (mat3_vec F (scale3 q (neg3 (loc_z c s (cos phi) (sin phi))))) (mat3_vec F (loc_x c s (cos phi) (sin phi))) (fwd_mtree (next_frame2 F q c phi) t2) = dtree_angles t2).
+  { rewrite <- (IH2 (next_frame2 F q c phi) q (next_frame2_rotation F q c phi HF Hq Hc) Hq Ok2).
+    unfold next_frame2, flip_frame. rewrite HF1. cbn [c1 c2 c3]. rewrite mat3_vec_scale, mat3_vec_neg. reflexivity. }
+  rewrite E1, E2. reflexivity.
+Qed.
+
+(* ------------------------------------------------------------------ the full pipeline:
+   build_data (final momenta only) -> infer_momentum -> cal_angle / masses *)
+Lemma infer_forget_map S : forall B, (forall p q, B (add4 p q) = add4 (B p) (B q)) ->
+  infer (forget (mtree_map B S)) = mtree_map B (infer (forget S)).
+Proof.
+  induction S as [p | P S1 IH1 S2 IH2]; intros B HB; [reflexivity|].
+  cbn [mtree_map forget infer]. rewrite IH1, IH2 by assumption. cbv zeta.
+  cbn [mtree_map]. rewrite !mmom_map, HB. reflexivity.
+Qed.
+
+Lemma fwd_mom_sum m1 m2 m q p3 : 0 <= m1 -> 0 <= m2 -> m1 + m2 < m -> q = rel_p m m1 m2 ->
+  add4 (fwd_mom m1 q p3) (fwd_mom m2 q (neg3 p3)) = V4 m 0 0 0.
+Proof.
+  intros H1 H2 Hm Hq. pose proof (breakup_energy_sum m m1 m2 H1 H2 Hm) as HE. cbv zeta in HE. rewrite <- Hq in HE.
+  apply vec4_eq; unfold add4, fwd_mom, mk4, neg3; cbn [pt px py pz vx vy vz]; try ring. exact HE.
+Qed.
+
+Lemma infer_forget_fwd t : forall F k, rotation F -> tree_ok k t -> infer (forget (fwd_mtree F t)) = fwd_mtree F t.
+Proof.
+  induction t as [m | m c phi t1 IH1 t2 IH2]; intros F k HF Hok; [reflexivity|].
+  cbn [tree_ok] in Hok. destruct Hok as (Hm & Hc & Gk & Gkqs & V1 & V2 & Ok1 & Ok2).
+  pose proof (tree_ok_mass _ _ Ok1) as M1. pose proof (tree_ok_mass _ _ Ok2) as M2.
+  rewrite fwd_mtree_node. cbv zeta. cbn [forget infer]. cbv zeta.
+  set (q := rel_p m (dmass t1) (dmass t2)) in *.
+  assert (Hq : 0 < q) by (apply rel_p_pos; assumption).
+  destruct (sin_theta_facts c Hc) as [Hs0 Hs]. pose proof (cos_sin_1 phi) as Hf.
+  assert (Hn : norm2_3 (fwd_p3 F q c phi) = q * q).
+  { rewrite fwd_p3_loc, (norm2_3_mat3 _ _ (proj1 HF)), norm2_3_scale. rewrite loc_z_unit by assumption. ring. }
+  assert (Hnn : norm2_3 (neg3 (fwd_p3 F q c phi)) = q * q) by (rewrite norm2_3_neg; exact Hn).
+  pose proof (next_frame1_rotation F q c phi HF Hq Hc) as R1.
+  pose proof (next_frame2_rotation F q c phi HF Hq Hc) as R2.
+  assert (S1 : forall P, infer (forget (fsub P (next_frame1 F q c phi) t1)) = fsub P (next_frame1 F q c phi) t1).
+  { intros P. destruct t1 as [m1 | m1 c1 f1 a b]; [reflexivity|]. unfold fsub.
+    rewrite infer_forget_map by (intros; apply boost_add). rewrite (IH1 _ q R1 Ok1). reflexivity. }
+  assert (S2 : forall P, infer (forget (fsub P (next_frame2 F q c phi) t2)) = fsub P (next_frame2 F q c phi) t2).
+  { intros P. destruct t2 as [m2 | m2 c2 f2 a b]; [reflexivity|]. unfold fsub.
+    rewrite infer_forget_map by (intros; apply boost_add). rewrite (IH2 _ q R2 Ok2). reflexivity. }
+  rewrite S1, S2. f_equal.
+  assert (Hmm : forall ti p3 G, norm2_3 p3 = q * q -> tree_ok q ti -> mmom (fsub (fwd_mom (dmass ti) q p3) G ti) = fwd_mom (dmass ti) q p3).
+  { intros ti p3 G Hp Hoki. destruct ti as [|mi ci fi a b]; [reflexivity|]. unfold fsub. rewrite mmom_map, fwd_mtree_root.
+    unfold fwd_mom. rewrite <- Hp. apply boost_from_rest. cbn [tree_ok dmass] in *.
+    destruct Hoki as (? & _ & _ & _ & _ & _ & O1 & O2). pose proof (tree_ok_mass _ _ O1). pose proof (tree_ok_mass _ _ O2). lra. }
+  rewrite !Hmm by assumption. apply fwd_mom_sum; auto.
+Qed.
+
+(* masses: LorentzVector.M of every stored momentum is the input mass *)
+Lemma mtree_masses_map S B : (forall p, mass (B p) = mass p) -> mtree_masses (mtree_map B S) = mtree_masses S.
+Proof.
+  intros HB. induction S as [p | P S1 IH1 S2 IH2]; cbn [mtree_map mtree_masses]; [rewrite HB; reflexivity|].
+  rewrite HB, IH1, IH2. reflexivity.
+Qed.
+Lemma mass_at_rest m : 0 <= m -> mass (V4 m 0 0 0) = m.
+Proof.
+  intros. unfold mass, mass2, mink; cbn [pt px py pz].
+  replace (m * m - 0 * 0 - 0 * 0 - 0 * 0) with (m * m) by ring. rewrite Rabs_right by nra. apply sqrt_square; assumption.
+Qed.
+Lemma mass_fwd_mom m q p3 : 0 <= m -> norm2_3 p3 = q * q -> mass (fwd_mom m q p3) = m.
+Proof.
+  intros Hm Hp. unfold mass, mass2. rewrite mink_split. unfold fwd_mom. rewrite vect_mk4, pt_mk4.
+  fold (norm2_3 p3). rewrite Hp, sqrt_sqrt by nra.
+  replace (m * m + q * q - q * q) with (m * m) by ring. rewrite Rabs_right by nra. apply sqrt_square; assumption.
+Qed.
+
+Lemma fwd_masses t : forall F k, rotation F -> tree_ok k t -> mtree_masses (fwd_mtree F t) = dtree_masses t.
+Proof.
+  induction t as [m | m c phi t1 IH1 t2 IH2]; intros F k HF Hok.
+  - cbn in *. rewrite mass_at_rest by assumption. reflexivity.
+  - pose proof (tree_ok_mass _ _ Hok) as M0.
+    cbn [tree_ok] in Hok. destruct Hok as (Hm & Hc & Gk & Gkqs & V1 & V2 & Ok1 & Ok2).
+    pose proof (tree_ok_mass _ _ Ok1) as M1. pose proof (tree_ok_mass _ _ Ok2) as M2.
+    rewrite fwd_mtree_node. cbv zeta. cbn [mtree_masses dtree_masses dmass] in *.
+    set (q := rel_p m (dmass t1) (dmass t2)) in *.
+    assert (Hq : 0 < q) by (apply rel_p_pos; assumption).
+    destruct (sin_theta_facts c Hc) as [Hs0 Hs]. pose proof (cos_sin_1 phi) as Hf.
+    assert (Hn : norm2_3 (fwd_p3 F q c phi) = q * q).
+    { rewrite fwd_p3_loc, (norm2_3_mat3 _ _ (proj1 HF)), norm2_3_scale. rewrite loc_z_unit by assumption. ring. }
+    assert (Hnn : norm2_3 (neg3 (fwd_p3 F q c phi)) = q * q) by (rewrite norm2_3_neg; exact Hn).
+    rewrite mass_at_rest by lra. f_equal.
+    assert (Hsub : forall ti p3 G, rotation G -> norm2_3 p3 = q * q -> tree_ok q ti ->
+               (match ti with DLeaf _ => True | _ => eps < q * q / (dmass ti * dmass ti + q * q) end) ->
+               (forall F k, rotation F -> tree_ok k ti -> mtree_masses (fwd_mtree F ti) = dtree_masses ti) ->
+               mtree_masses (fsub (fwd_mom (dmass ti) q p3) G ti) = dtree_masses ti).
+    { intros ti p3 G HG Hp Hoki Vi IH. pose proof (tree_ok_mass _ _ Hoki) as Mi.
+      destruct ti as [mi|mi ci fi a b].
+      - cbn [fsub mtree_masses dtree_masses dmass] in *. rewrite mass_fwd_mom by assumption. reflexivity.
+      - unfold fsub. rewrite mtree_masses_map; [apply (IH G q HG Hoki)|].
+        intros p. apply mass_boost.
+        assert (Hmi : 0 < mi).
+        { cbn [tree_ok dmass] in *. destruct Hoki as (? & _ & _ & _ & _ & _ & O1 & O2).
+          pose proof (tree_ok_mass _ _ O1). pose proof (tree_ok_mass _ _ O2). lra. }
+        cbn [dmass] in *. unfold vel_ok, fwd_mom.
+        assert (HE : 0 < sqrt (mi * mi + q * q)) by (apply sqrt_lt_R0; nra).
+        rewrite boost_vector_norm2 by (cbn; lra). rewrite vect_mk4, pt_mk4, sqrt_sqrt, Hp by nra.
+        split; [assumption|].
+        apply Rmult_lt_reg_r with (mi * mi + q * q); [nra|]. unfold Rdiv. rewrite Rmult_assoc, Rinv_l by nra. nra. }
+    rewrite (Hsub t1), (Hsub t2); auto.
+    + apply next_frame2_rotation; assumption.
+    + apply next_frame1_rotation; assumption.
+Qed.
+
+(* C11, helicity part, complete: for EVERY decay tree (sequential or branching, any depth) *)
+Theorem cascade_roundtrip t : tree_ok 1 t ->
+  (cal_angle (forget (fwd_mtree id3 t)) = dtree_angles t) /\
+  (mtree_masses (infer (forget (fwd_mtree id3 t))) = dtree_masses t).
+Proof.
+  intros Hok. unfold cal_angle. rewrite (infer_forget_fwd t id3 1 rotation_id3 Hok). split.
+  - rewrite <- (tree_roundtrip t id3 1 rotation_id3 ltac:(lra) Hok). f_equal.
+    apply vec3_eq; unfold scale3, id3; cbn [c3 vx vy vz]; ring.
+  - apply (fwd_masses t id3 1 rotation_id3 Hok).
+Qed.
+
+(* what build_data returns are the leaves of that tree *)
+Lemma build_data_leaves t : build_data t = mleaves (fwd_mtree id3 t).
+Proof. reflexivity. Qed.
